@@ -170,6 +170,7 @@ class Snapshot:
         self.ids = {}
         self.values = plain(cfg, self.ids)
         self.defined = defined_map(cfg)
+        self.flags = self.defined
 
     def diff(self, other, identity=True):
         """List of human-readable differences (empty when equal)."""
